@@ -8,6 +8,7 @@
 //! Prints one JSON line: {"executions":..,"ok":bool,"error":..}
 
 use jubako as jbk;
+use jubako::reader::Range;
 use std::io::Read;
 
 #[path = "../../../harness/src/indep.rs"]
@@ -418,6 +419,146 @@ fn main() {
                 let _ = &content;
                 if let Err(e) = r {
                     err = Some(format!("reader A contents {a:?}, reader B contents {b:?}, cache of {cache}: {e}"));
+                    break;
+                }
+            }
+            (configs, err)
+        }
+        "toplevel" => {
+            // C07 engine B2: the real `Container` under loom — the per-pack `OnceLock` slots filled
+            // lazily by `get_pack`, the `VecCache` of entry and value stores, the check-info cells —
+            // two threads doing their FIRST accesses to a freshly opened container.
+            // The container and the contents it must yield are written by `corpusmc gentop`.
+            let dir = std::path::PathBuf::from(opt(&args, "--dir").expect("--dir"));
+            jbk::verif::set_decode_chunk_size(8);
+            let expect: serde_json::Value = serde_json::from_str(&std::fs::read_to_string(dir.join("expect.json")).expect("expect.json")).unwrap();
+            let entry = dir.join(expect["entry"].as_str().unwrap());
+            let contents: Vec<(u16, u32, Vec<u8>)> = expect["contents"]
+                .as_array()
+                .unwrap()
+                .iter()
+                .map(|c| {
+                    let hex = c["hex"].as_str().unwrap();
+                    let bytes: Vec<u8> = (0..hex.len() / 2).map(|i| u8::from_str_radix(&hex[2 * i..2 * i + 2], 16).unwrap()).collect();
+                    (c["pack"].as_u64().unwrap() as u16, c["idx"].as_u64().unwrap() as u32, bytes)
+                })
+                .collect();
+            let index_name = expect["index"].as_str().unwrap().to_string();
+            let index_count = expect["index_count"].as_u64().unwrap() as u32;
+            let missing: Vec<u16> = opt(&args, "--missing").map(|m| m.split(',').filter(|x| !x.is_empty()).map(|x| x.parse().unwrap()).collect()).unwrap_or_default();
+            // operations: c<k> = read content k of the list, e = open the index' entry store and
+            // read entry 0 through a builder (entry-store and value-store caches), k = check(),
+            // u = unknown pack id
+            #[derive(Clone, Debug)]
+            enum TOp {
+                Content(usize),
+                Entries,
+                Check,
+                Unknown,
+            }
+            let first_of_pack = |p: u16| contents.iter().position(|c| c.0 == p);
+            let mut alphabet: Vec<TOp> = vec![];
+            let packs: Vec<u16> = {
+                let mut v: Vec<u16> = contents.iter().map(|c| c.0).collect();
+                v.dedup();
+                v
+            };
+            for p in &packs {
+                if let Some(i) = first_of_pack(*p) {
+                    alphabet.push(TOp::Content(i));
+                }
+            }
+            if let Some(i) = contents.iter().rposition(|c| c.0 == packs[0]) {
+                alphabet.push(TOp::Content(i)); // another content of the first pack
+            }
+            alphabet.push(TOp::Entries);
+            alphabet.push(TOp::Unknown);
+            let with_check = opt(&args, "--check").map(|x| x == "yes").unwrap_or(false);
+            if with_check {
+                alphabet.push(TOp::Check);
+            }
+            // every (A: two ops, B: one op) and (A: one op, B: one op)
+            let mut combos: Vec<(Vec<TOp>, Vec<TOp>)> = vec![];
+            for a1 in &alphabet {
+                for b1 in &alphabet {
+                    combos.push((vec![a1.clone()], vec![b1.clone()]));
+                    for a2 in &alphabet {
+                        combos.push((vec![a1.clone(), a2.clone()], vec![b1.clone()]));
+                    }
+                }
+            }
+            let shard: usize = opt(&args, "--shard").and_then(|s| s.parse().ok()).unwrap_or(0);
+            let shards: usize = opt(&args, "--shards").and_then(|s| s.parse().ok()).unwrap_or(1);
+            let only: Option<usize> = opt(&args, "--only").and_then(|s| s.parse().ok());
+            let contents = Arc::new(contents);
+            let missing = Arc::new(missing);
+            let mut err = None;
+            let mut configs = 0;
+            for (ci, (a, b)) in combos.iter().enumerate() {
+                if ci % shards != shard || only.map(|o| o != ci).unwrap_or(false) {
+                    continue;
+                }
+                configs += 1;
+                let (a2, b2, e2, cs, ms, iname) = (a.clone(), b.clone(), entry.clone(), contents.clone(), missing.clone(), index_name.clone());
+                let r = model(bound, move || {
+                    EXECUTIONS.fetch_add(1, Ordering::Relaxed);
+                    let (a2, b2, e2, cs, ms, iname) = (a2.clone(), b2.clone(), e2.clone(), cs.clone(), ms.clone(), iname.clone());
+                    // everything on a loom thread with a large stack (opening a container is deep)
+                    loom::thread::Builder::new().stack_size(0x200000).spawn(move || {
+                    let c = Arc::new(jbk::reader::Container::new(&e2).expect("container opens"));
+                    let run = {
+                        let (cs, ms, iname) = (cs.clone(), ms.clone(), iname.clone());
+                        move |c: &jbk::reader::Container, op: &TOp| match op {
+                            TOp::Content(k) => {
+                                let (p, i, want) = &cs[*k];
+                                let addr = jbk::ContentAddress::new(jbk::PackId::from(*p), jbk::ContentIdx::from(*i));
+                                match c.get_bytes(addr).expect("get_bytes") {
+                                    None => panic!("content {p}/{i}: pack id answered as not in the manifest"),
+                                    Some(jbk::reader::MayMissPack::MISSING(info)) => {
+                                        assert!(ms.contains(p), "content {p}/{i}: pack reported MISSING ({})", info.pack_location.as_str());
+                                    }
+                                    Some(jbk::reader::MayMissPack::FOUND(None)) => panic!("content {p}/{i}: no such content"),
+                                    Some(jbk::reader::MayMissPack::FOUND(Some(region))) => {
+                                        assert!(!ms.contains(p), "content {p}/{i}: found although its pack file was removed");
+                                        let mut v = vec![];
+                                        region.stream().read_to_end(&mut v).expect("stream");
+                                        assert_eq!(&v, want, "content {p}/{i} bytes");
+                                    }
+                                }
+                            }
+                            TOp::Entries => {
+                                let index = c.get_index_for_name(&iname).expect("index lookup").expect("index exists");
+                                assert_eq!(index.count().into_u32(), index_count, "index count");
+                                let store = index.get_store(c.get_entry_storage()).expect("entry store");
+                                let builder = jbk::reader::builder::AnyBuilder::new(store, &**c.get_value_storage()).expect("builder");
+                                let e = index.get_entry(&builder, jbk::EntryIdx::from(0u32)).expect("entry 0");
+                                assert!(e.is_some() || index_count == 0, "entry 0 exists");
+                            }
+                            TOp::Check => {
+                                assert!(c.check().expect("check"), "check() of a pristine container");
+                            }
+                            TOp::Unknown => {
+                                assert!(c.get_pack(jbk::PackId::from(99u16)).expect("get_pack").is_none(), "unknown pack id");
+                            }
+                        }
+                    };
+                    let (cb, bb, runb) = (c.clone(), b2.clone(), run.clone());
+                    let h = loom::thread::Builder::new()
+                        .stack_size(0x100000)
+                        .spawn(move || {
+                            for op in &bb {
+                                runb(&cb, op);
+                            }
+                        })
+                        .unwrap();
+                    for op in &a2 {
+                        run(&c, op);
+                    }
+                    h.join().unwrap();
+                    }).unwrap().join().unwrap();
+                });
+                if let Err(e) = r {
+                    err = Some(format!("reader A {a:?}, reader B {b:?}, missing packs {:?}: {e}", &*missing));
                     break;
                 }
             }
